@@ -19,9 +19,17 @@
    holds_extends   : extends clause, implementation against implementation: Load([child]) and Load of the same
                      chain named explicitly agree on everything except working directories. *)
 From Coq Require Import List ZArith Bool NArith.
+From Coq Require Ascii String.
 From PC.Base Require Import Util.
 From PC.Merge Require Import Model.
 Import ListNotations.
+
+(* byte strings of the generated cases are written as string literals *)
+Fixpoint b (s : String.string) : bytes :=
+  match s with
+  | String.EmptyString => []
+  | String.String a r => Ascii.N_of_ascii a :: b r
+  end.
 
 Record ocase := mkCase {
   c_files    : list cfile;               (* the files named on the command line, parents inside *)
@@ -166,13 +174,22 @@ Definition distinct_files (c : ocase) : bool :=
 
 Definition no_env (_ _ : env) : bool := true.
 
-Definition holds_gen (strict : bool) (c : ocase) : bool :=
+(* clause 1: options, maps, lists, pointer structs, process set *)
+Definition holds_struct (strict : bool) (c : ocase) : bool :=
   if negb (in_scope c) then true else
   let gs := flat_map flatten_file (c_files c) in
   match c_obs c with
   | None => negb (distinct_files c)                  (* every chain of distinct files must load *)
+  | Some o => project_eqb no_env (post (c_defshell c) (spec_project strict gs)) o
+  end.
+
+(* clause 2: environments of the project and of every process *)
+Definition holds_env (c : ocase) : bool :=
+  if negb (in_scope c) then true else
+  let gs := flat_map flatten_file (c_files c) in
+  match c_obs c with
+  | None => true
   | Some o =>
-      project_eqb no_env (post (c_defshell c) (spec_project strict gs)) o &&
       env_spec_ok (map g_env gs) (g_env o) &&
       let pss := map g_procs gs in
       forallb (fun k => match lookup k (g_procs o) with
@@ -180,8 +197,8 @@ Definition holds_gen (strict : bool) (c : ocase) : bool :=
                         | None => false end) (all_keys pss)
   end.
 
-Definition holds_C15 (c : ocase) : bool := holds_gen true c.
-Definition holds_C15_nz (c : ocase) : bool := holds_gen false c.
+Definition holds_C15 (c : ocase) : bool := holds_struct true c && holds_env c.
+Definition holds_C15_nz (c : ocase) : bool := holds_struct false c && holds_env c.
 
 (* extends clause, implementation against implementation *)
 Definition blank_wd_mid (m : mid) : mid :=
@@ -203,6 +220,7 @@ Definition holds_extends (c : ocase) : bool :=
   end.
 
 Definition bad_model (cs : list ocase) : list nat := failing model_ok cs.
-Definition bad_monitor (cs : list ocase) : list nat := failing holds_C15 cs.
-Definition bad_monitor_nz (cs : list ocase) : list nat := failing holds_C15_nz cs.
+Definition bad_struct (cs : list ocase) : list nat := failing (holds_struct true) cs.
+Definition bad_struct_nz (cs : list ocase) : list nat := failing (holds_struct false) cs.
+Definition bad_env (cs : list ocase) : list nat := failing holds_env cs.
 Definition bad_extends (cs : list ocase) : list nat := failing holds_extends cs.
